@@ -4,12 +4,13 @@ from __future__ import annotations
 
 import ast
 import math
+import re
 
 from .. import cfg as cfgmod
 from ..ccfg import get_ccfg
 from ..cexpr import (callee, cnorm, find_assign_in, int_value, is_null, strip,
                      var)
-from ..cfacts import CREL, get_cfacts
+from ..cfacts import CREL, get_cfacts, index_encoders
 from ..core import AnalysisError, rule
 from ..pyfacts import get_pyrepo
 from ..pyfacts import norm as norm_py
@@ -475,11 +476,10 @@ def getstate_membership(ctx, res):
     tables = fp_tables(facts)
     gs = facts.func("_trait_getstate")
     field_table = {}
-    for c in gs.walk():
-        if c.kind == "CallExpr" and callee(c) == "func_index":
-            a0, a1 = strip(c.ch[1]), strip(c.ch[2])
-            if a0.kind == "MemberExpr" and a1.kind == "DeclRefExpr":
-                field_table[a0.name] = a1.ref
+    from ..cfacts import func_index_calls
+    for c, a0, a1, _boxed in func_index_calls(facts, gs):
+        if a0.kind == "MemberExpr" and a1.kind == "DeclRefExpr":
+            field_table[a0.name] = a1.ref
     if set(field_table) != set(TRAIT_FP_FIELDS):
         raise AnalysisError(f"_trait_getstate encodes {sorted(field_table)} "
                             f"with func_index; expected {TRAIT_FP_FIELDS}")
@@ -606,7 +606,7 @@ def _members_used(fn, basevar=None):
     return {x.name for x in fn.walk() if x.kind == "MemberExpr"}
 
 
-@rule("C18.gc-fields", ["C18"],
+@rule("C18.gc-fields", ["C18", "C09"],
       "every object-typed field of the two C structs is traversed, cleared "
       "and (CTrait) cloned with a new reference")
 def gc_fields(ctx, res):
@@ -941,11 +941,20 @@ def state_roundtrip(ctx, res):
                     f = _trait_field(a)
                     desc = ("obj", f) if f else (
                         ("none", None) if is_null(a) else None)
+                elif cal in index_encoders(facts) \
+                        and index_encoders(facts)[cal][2]:
+                    fi, ti, _b = index_encoders(facts)[cal]
+                    f = _trait_field(v.ch[1 + fi])
+                    t = strip(v.ch[1 + ti])
+                    desc = ("idx", f, t.ref if t.kind == "DeclRefExpr"
+                            else "?")
                 elif cal in ("PyLong_FromLong", "PyLong_FromUnsignedLong"):
                     if a is not None and a.kind == "CallExpr" \
-                            and callee(a) == "func_index":
-                        f = _trait_field(a.ch[1])
-                        t = strip(a.ch[2])
+                            and callee(a) in index_encoders(facts) \
+                            and not index_encoders(facts)[callee(a)][2]:
+                        fi, ti, _b = index_encoders(facts)[callee(a)]
+                        f = _trait_field(a.ch[1 + fi])
+                        t = strip(a.ch[1 + ti])
                         desc = ("idx", f, t.ref if t.kind == "DeclRefExpr"
                                 else "?")
                     else:
@@ -1168,12 +1177,11 @@ def slot_arity(ctx, res):
     # the slot that selects the minority caller: the table that lists it
     dfield = None
     gs = facts.func("_trait_getstate")
-    for c in gs.walk():
-        if c.kind == "CallExpr" and callee(c) == "func_index":
-            a0, a1 = strip(c.ch[1]), strip(c.ch[2])
-            if a0.kind == "MemberExpr" and a1.kind == "DeclRefExpr" \
-                    and umin in tables.get(a1.ref, []):
-                dfield, dtable = a0.name, a1.ref
+    from ..cfacts import func_index_calls
+    for c, a0, a1, _boxed in func_index_calls(facts, gs):
+        if a0.kind == "MemberExpr" and a1.kind == "DeclRefExpr" \
+                and umin in tables.get(a1.ref, []):
+            dfield, dtable = a0.name, a1.ref
     if dfield is None:
         raise AnalysisError(f"{umin} is not a member of a handler table")
     res.instance("pairing", CREL, minority_caller=umin, selected_by=dfield,
@@ -1196,8 +1204,25 @@ def slot_arity(ctx, res):
         fl = IntervalFlow(facts, g, tables)
         bad = None
         n_paths = 0
+        def relates(e):
+            """True / False when `e` is the test D == umin / D != umin"""
+            if e is None or not (e.kind == "BinaryOperator"
+                                 and e.op in ("==", "!=")):
+                return None
+            l, r = strip(e.ch[0]), strip(e.ch[1])
+            for a, b in ((l, r), (r, l)):
+                if b.kind == "DeclRefExpr" and b.ref == umin and (
+                        (a.kind == "MemberExpr" and a.name == dfield)
+                        or (a.kind == "ArraySubscriptExpr"
+                            and strip(a.ch[0]).kind == "DeclRefExpr"
+                            and strip(a.ch[0]).ref == dtable)):
+                    return e.op == "=="
+            return None
+
         for path in enumerate_paths(g, max_paths=20000):
             st = frozenset()
+            flags = {}           # local -> polarity of `D == umin` it holds
+            flagtruth = {}       # local -> outcome of its test on this path
             dfact = None         # True: D is umin, False: D is not umin
             dstore = None
             feasible = True
@@ -1212,18 +1237,35 @@ def slot_arity(ctx, res):
                         feasible = False
                         break
                     st = st2
-                    if e.kind == "BinaryOperator" and e.op in ("==", "!="):
-                        l, r = strip(e.ch[0]), strip(e.ch[1])
-                        for a, b in ((l, r), (r, l)):
-                            if b.kind == "DeclRefExpr" and b.ref == umin and (
-                                    (a.kind == "MemberExpr" and a.name == dfield)
-                                    or (a.kind == "ArraySubscriptExpr"
-                                        and strip(a.ch[0]).kind == "DeclRefExpr"
-                                        and strip(a.ch[0]).ref == dtable)):
-                                dfact = (lab == "T") == (e.op == "==")
+                    pol = relates(e)
+                    if pol is not None:
+                        dfact = (lab == "T") == pol
+                    elif e.kind == "DeclRefExpr" and e.ref in flags:
+                        # a local that holds the outcome of that comparison:
+                        # tested twice on one path, it has one value
+                        if flagtruth.setdefault(e.ref, lab == "T") \
+                                != (lab == "T"):
+                            feasible = False
+                            break
+                        dfact = (lab == "T") == flags[e.ref]
                     continue
                 if nd.kind != "stmt":
                     continue
+                for x in nd.ast.walk():
+                    tgt = src = None
+                    if x.kind == "BinaryOperator" and x.op == "=" \
+                            and strip(x.ch[0]).kind == "DeclRefExpr":
+                        tgt, src = strip(x.ch[0]).ref, strip(x.ch[1])
+                    elif x.kind == "VarDecl" and x.ch:
+                        tgt, src = x.name, strip(x.ch[-1])
+                    if tgt is None or src is None:
+                        continue
+                    pol = relates(src)
+                    flagtruth.pop(tgt, None)
+                    if pol is not None:
+                        flags[tgt] = pol
+                    else:
+                        flags.pop(tgt, None)
                 st = fl.kill_assigned(nd, st)
                 for x in nd.ast.walk():
                     if not (x.kind == "BinaryOperator" and x.op == "="):
@@ -1494,3 +1536,104 @@ def default_shape(ctx, res):
     if n_writers < 3:
         raise AnalysisError(f"only {n_writers} writers of ->{TF} found")
     res.floor(3)
+
+
+# ---------------------------------------------------------------------------
+# C14.dict-slot: what the interpreter reads through tp_dictoffset is a dict
+
+@rule("C14.dict-slot", ["C14", "C18"],
+      "the last field of has_traits_object / trait_object is registered as "
+      "the instance dictionary (tp_dictoffset): the interpreter's generic "
+      "attribute access reads it as NULL-or-dict.  Every store into that "
+      "field - direct or through set_value(&x->field, v) - stores NULL, a "
+      "fresh PyDict_New(), the same field of another object, or a value that "
+      "passed PyDict_Check on that path; __setstate__ restoring the None that "
+      "__getstate__ wrote for an absent dictionary is the case this decides")
+def dict_slot(ctx, res):
+    from ..csym import cached_paths, flush_paths
+    facts = get_cfacts(ctx)
+    # the anchor: type objects whose dictionary offset is `sizeof(T) -
+    # sizeof(PyObject *)`, i.e. the last field of T
+    n_types = 0
+    for d in facts.decls:
+        if d.kind == "VarDecl" and (d.type or "").startswith("PyTypeObject"):
+            for x in d.walk():
+                if x.kind == "BinaryOperator" and x.op == "-" \
+                        and all(strip(c).kind == "UnaryExprOrTypeTraitExpr"
+                                for c in x.ch):
+                    n_types += 1
+                    break
+    fields = set()
+    for d in facts.decls:
+        if d.kind == "RecordDecl":
+            fs = [c.name for c in d.ch if c.kind == "FieldDecl"]
+            if len(fs) > 3:
+                fields.add(fs[-1])
+    if n_types < 2 or len(fields) != 1:
+        raise AnalysisError(f"dictionary slots not found (types {n_types}, "
+                            f"last fields {sorted(fields)})")
+    field = fields.pop()
+    suffix = "->" + field
+    funcs = list(facts.defined_functions())
+    n_sites = 0
+    seen = {}
+    for f in sorted(funcs):
+        ps = cached_paths(ctx, facts, f)
+        for p in ps or []:
+            dict_checked = set()
+            for it in p.trace:
+                if it[0] == "atom" and it[2] is True:
+                    m = re.fullmatch(
+                        r"PyType_HasFeature\(Py_TYPE\((.+)\), "
+                        r"\(1U?L? << 29\)\)", it[1])
+                    if m:
+                        dict_checked.add(m.group(1))
+                    m = re.fullmatch(r"PyDict_Check(?:Exact)?\((.+)\)", it[1])
+                    if m:
+                        dict_checked.add(m.group(1))
+                tgt = rhs = line = None
+                if it[0] == "store" and it[1].endswith(suffix):
+                    tgt, rhs, line = it[1], it[2], it[3]
+                elif it[0] == "call" and it[1] == "set_value" \
+                        and len(it[2]) == 2 and it[2][0].startswith("&") \
+                        and it[2][0].endswith(suffix):
+                    tgt, rhs, line = it[2][0][1:], it[2][1], it[4]
+                if tgt is None:
+                    continue
+                key = f"{f}:{line}"
+                r = rhs.strip()
+                while r.startswith("(") and r.endswith(")") \
+                        and r.count("(") == r.count(")") \
+                        and not re.match(r"\([A-Za-z_ ]+\*?\)", r):
+                    r = r[1:-1].strip()
+                r = re.sub(r"^\((?:struct )?[A-Za-z_]+ ?\*\)\s*", "", r)
+                ok = (r in ("0", "NULL", "((void *)0)")
+                      or r.startswith("PyDict_New(")
+                      or r.endswith(suffix)
+                      or r in dict_checked)
+                st = seen.setdefault(key, {"f": f, "line": line, "bad": None,
+                                           "n": 0})
+                st["n"] += 1
+                if not ok and st["bad"] is None:
+                    st["bad"] = (tgt, rhs, p)
+    flush_paths(ctx)
+    for key, st in sorted(seen.items()):
+        n_sites += 1
+        res.instance(f"{st['f']}:{field}", f"{CREL}:{st['line']}",
+                     paths=st["n"])
+        if st["bad"] is None:
+            res.oblige(True, f"{st['f']}:{field}:dict-or-null", "", "")
+        else:
+            tgt, rhs, p = st["bad"]
+            res.violation(
+                f"{st['f']}:{field}:dict-or-null", f"{CREL}:{st['line']}",
+                f"{st['f']} stores `{rhs}` into {tgt}, the slot the "
+                f"interpreter reads as the instance dictionary, on a path "
+                f"where it is neither NULL, a new dictionary nor checked with "
+                f"PyDict_Check: a None (what __getstate__ writes for an "
+                f"absent dictionary) or any other object there makes every "
+                f"later attribute access fail with SystemError",
+                [f"{CREL}:{l}" for l in dict.fromkeys(p.lines) if l][-6:])
+    if n_sites < 5:
+        raise AnalysisError(f"only {n_sites} stores into ->{field} found")
+    res.floor(5)
